@@ -425,7 +425,8 @@ fn linearizable(cfg: &Config, recs: &[Rec], budget: &mut u64) -> Result<bool, Op
     if replay(&by_ret).is_ok() {
         return Ok(true);
     }
-    // backtracking with memoisation on the set of linearised calls + last-failure pruning
+    // backtracking over all orders that respect real-time precedence, pruned at the first call
+    // whose sequential result differs from the recorded one
     fn dfs(prefix: &mut Vec<usize>, done: u64, n: usize, recs: &[Rec], replay: &dyn Fn(&[usize]) -> Result<(), (usize, String)>, seen: &mut HashSet<(u64, usize)>, budget: &mut u64) -> Option<bool> {
         if prefix.len() == n {
             return Some(true);
@@ -439,9 +440,9 @@ fn linearizable(cfg: &Config, recs: &[Rec], budget: &mut u64) -> Result<bool, Op
             if !ok {
                 continue;
             }
-            if !seen.insert((done | (1 << c), c)) {
-                continue;
-            }
+            // (no memoisation on the set of linearised calls: the state reached depends on their
+            // order, so pruning a set already seen under another order would be unsound)
+            let _ = &seen;
             if *budget == 0 {
                 return None;
             }
@@ -593,7 +594,7 @@ fn check_run(ctx: &mut Ctx, cfg: &Config, out: &mut RunOut, label: &str) -> bool
         return false;
     }
     ctx.count("closed_form_checks");
-    let mut budget = 3000u64;
+    let mut budget = 20_000u64;
     match linearizable(cfg, &out.recs, &mut budget) {
         Ok(true) => ctx.count("linearizable_by_return_order"),
         Ok(false) => ctx.count("linearizable_by_search"),
